@@ -43,6 +43,7 @@ class Check:
 
     prop = "C00"
     engine = "?"
+    tier = "quick"  # set by the runner; generators may use deeper bounds in the thorough tier
     rule = ""
     components = {"real": [], "stub": []}
     assumptions = []
@@ -191,6 +192,7 @@ def _work(args):
 
 def run_check(check: Check, tier: str, master: int, jobs: int, runs=None, out=sys.stdout):
     global _CHECK
+    check.tier = tier
     _CHECK = check
     cfg = dict(check.tiers[tier])
     n_runs = int(runs if runs is not None else cfg["runs"])
